@@ -8,6 +8,7 @@ The lineariser's own stage dumps (-WD+lin) are compared with the spec's streams:
 """
 import json
 import os
+import shutil
 import subprocess
 import sys
 import time
@@ -35,10 +36,20 @@ MAX_REPORT = 40
 # ---------------------------------------------------------------------------
 # running the compiler over many small files
 
+def fast_scratch(prefix):
+    """Scratch directory for tens of thousands of tiny files: on tmpfs when there is one (removed with the others)."""
+    if os.path.isdir("/dev/shm") and os.access("/dev/shm", os.W_OK) and "VERIF_TMP" not in os.environ:
+        import tempfile
+        d = tempfile.mkdtemp(prefix="aldor-verif-%s-" % prefix, dir="/dev/shm")
+        vlib._scratch_dirs.append(d)
+        return d
+    return vlib.scratch(prefix)
+
+
 def compile_all(build, texts, want_lin=True, jobs=None):
     """texts: list of str.  Returns list of dicts {rc, ap (bytes|None), out (str)} in order."""
     jobs = jobs or vlib.NCPU
-    d = vlib.scratch("c14")
+    d = fast_scratch("c14")
     n = len(texts)
     for i, t in enumerate(texts):
         with open(os.path.join(d, "r%d.as" % i), "w") as fh:
@@ -73,6 +84,7 @@ def compile_all(build, texts, want_lin=True, jobs=None):
         out = open(os.path.join(d, "r%d.out" % i), errors="replace").read()
         err = open(os.path.join(d, "r%d.err" % i), errors="replace").read()
         res.append({"rc": rc, "ap": ap, "out": out, "err": err})
+    shutil.rmtree(d, ignore_errors=True)
     return res
 
 
@@ -81,7 +93,7 @@ def scan_key(r):
     sc = r.get("scan") or {"ok": True}
     if sc.get("ok", True):
         return {"scan_want": None, "scan_got": None}
-    return {"scan_want": (sc["want"] or ["<end>"])[0], "scan_got": (sc["got"] or ["<end>"])[0]}
+    return {"scan_want": (sc["want"] or ["<end>"])[0], "scan_got": "column" if sc.get("column") else sc.get("gotkind")}
 
 
 def outcome(r):
@@ -121,14 +133,16 @@ def replay(chk, build, renders, label, stats):
             if o == oref:
                 continue
             kind = "fault" if o[0] == "fault" else ("accept-differs" if o[0] != oref[0] else "ap-differs")
-            nviol += 1
-            if nviol > MAX_REPORT:
-                stats["violations_not_reported"] = stats.get("violations_not_reported", 0) + 1
+            stats["replay_mismatches"] = stats.get("replay_mismatches", 0) + 1
+            if nviol >= MAX_REPORT:     # enough replay files; known findings never count towards the cap
+                k0 = dict(scan_key(renders[i]) if not renders[i]["holds"] else scan_key(renders[ref]))
+                if not any(f.get("status") == "open" and vlib.finding_matches(f, k0) for f in chk.findings):
+                    stats["violations_not_reported"] = stats.get("violations_not_reported", 0) + 1
                 continue
             what = {"fault": "compiler fault on one layout of a program that compiles in another layout",
                     "accept-differs": "one layout of a program is %s, another layout of the same program is %s" % (oref[0], o[0]),
                     "ap-differs": "two layouts of one program give different parse trees (-Fap)"}[kind]
-            chk.violation("%s: %s [%s] vs [%s]" % (what, renders[i]["name"], layout.style_text(renders[ref]["sty"]),
+            nviol += 1 if chk.violation("%s: %s [%s] vs [%s]" % (what, renders[i]["name"], layout.style_text(renders[ref]["sty"]),
                                                    layout.style_text(renders[i]["sty"])),
                           {"reference_source": texts[ref], "source": texts[i],
                            "reference_ap": (oref[1] or b"").decode(errors="replace")[:4000],
@@ -137,7 +151,7 @@ def replay(chk, build, renders, label, stats):
                            "stderr": results[i]["out"][-1500:] if results[i]["rc"] else ""},
                           key=dict(scan_key(renders[i]) if not renders[i]["holds"] else scan_key(renders[ref]),
                                    program=renders[i]["name"], style=layout.style_text(renders[i]["sty"]),
-                                   ref_style=layout.style_text(renders[ref]["sty"]), kind=kind))
+                                   ref_style=layout.style_text(renders[ref]["sty"]), kind=kind)) else 0
         chk.traces += 1
     # drift: the lineariser's own dumps against the spec's streams
     drift = stats.setdefault("drift", {"compared": 0, "stage_mismatch": {}, "first": []})
@@ -170,19 +184,38 @@ def replay(chk, build, renders, label, stats):
     return results
 
 
-def tlc_renders(chk, module, cfg, name, workers, timeout, stats):
-    r = vlib.tlc(module, cfg, workers=workers, timeout=timeout, xmx="8g")
+def spec_dir(seed, progs=None):
+    """A scratch copy of the C14 modules with the seed written into the configurations and LayoutVocab generated
+    (with the programs, if any)."""
+    d = vlib.scratch("c14spec")
+    for f in ("Scan.tla", "Linear.tla", "Layout.tla"):
+        shutil.copy(os.path.join(vlib.SPEC, f), d)
+    for f in os.listdir(vlib.SPEC):
+        if f.startswith("Layout") and f.endswith(".cfg"):
+            t = open(os.path.join(vlib.SPEC, f)).read().replace("Seed = 0", "Seed = %d" % seed)
+            open(os.path.join(d, f), "w").write(t)
+    text = layout.emit_vocab(os.path.join(d, "LayoutVocab.tla"), progs=progs)
+    if progs is None and text != open(os.path.join(vlib.SPEC, "LayoutVocab.tla")).read():
+        raise vlib.MachineryError("spec/LayoutVocab.tla is not what gen/layout.py generates (run python3 gen/layout.py)")
+    return d
+
+
+def tlc_renders(chk, d, cfg, name, workers, timeout, stats, names=None):
+    r = vlib.tlc("Layout", cfg, workers=workers, timeout=timeout, xmx="10g", cwd=d)
     chk.add_tlc(name, r)
     renders = layout.parse_renders(r.printed)
+    r.out = ""
+    r.printed = []
     if r.violated:
-        chk.violation("the model of linear.c violates %s (a layout the User Guide calls equivalent is linearised differently)" % r.violated,
-                      r.trace_text, key={"model": module, "cfg": cfg, "inv": r.violated})
+        chk.violation("the model violates %s" % r.violated, r.trace_text, key={"model": "Layout", "cfg": cfg, "inv": r.violated})
     if not renders and not r.violated:
         raise vlib.MachineryError("TLC run %s exported no rendering" % name)
     bad = {}
     for x in renders:
-        x["key"] = layout.tree_key(x["tree"])
-        x["name"] = x.get("name") or layout.tree_text(x["tree"])
+        x["key"] = name + ":" + layout.tree_key(x["tree"])
+        x["name"] = layout.tree_text(x["tree"])
+        if names:
+            x["name"] = names.get(x["tree"][0]["sh"].split("S")[0], x["name"])
         if not x["holds"]:
             k = scan_key(x)
             bad.setdefault((k["scan_want"], k["scan_got"]), []).append(x)
@@ -191,8 +224,8 @@ def tlc_renders(chk, module, cfg, name, workers, timeout, stats):
         if want is None and got is None:
             what = "the transcription of linear.c linearises a layout of %s differently from its canonical stream" % x["name"]
         else:
-            what = ("the transcription of scan.c reads %r where the program has %r in %d layouts (first: %s [%s])"
-                    % (got, want, len(xs), x["name"], layout.style_text(x["sty"])))
+            what = ("the transcription of scan.c reads a %s token %r where the program has %r in %d layouts (first: %s [%s])"
+                    % (got, (x["scan"]["got"] or ["<end>"])[0], want, len(xs), x["name"], layout.style_text(x["sty"])))
         chk.violation("model: " + what, {"source": layout.text_of(x), "scan": x.get("scan"), "streams": x["streams"],
                                          "count": len(xs)},
                       key={"kind": "model", "scan_want": want, "scan_got": got,
@@ -202,21 +235,54 @@ def tlc_renders(chk, module, cfg, name, workers, timeout, stats):
     return renders
 
 
+def one_part(chk, build, d, cfg, label, workers, timeout, stats, names=None):
+    renders = tlc_renders(chk, d, cfg, label, workers, timeout, stats, names)
+    replay(chk, build, renders, label, stats)
+    for r in renders[:2]:
+        chk.sample({"part": label, "program": r["name"], "style": layout.style_text(r["sty"]), "source": layout.text_of(r)})
+    return len(renders)
+
+
 def run(chk, tier):
+    import layout_progs
     build = vlib.vbuild()
     stats = {}
-    workers = min(vlib.NCPU, 12)
-    renders = tlc_renders(chk, "Layout", "LayoutQuick", "LayoutQuick", workers, 600, stats)
-    replay(chk, build, renders, "quick", stats)
-    for r in renders[:3]:
-        chk.sample({"program": r["name"], "style": layout.style_text(r["sty"]), "source": layout.text_of(r)})
-    chk.rule = ("case = one block tree (all trees with <= 3 statements, nesting <= 3, over 13 statement shapes) rendered in "
-                "8 styles (each of braced/piled/mixed1/mixed2 twice, each of none/stair/hang/esc continuation twice; indent width "
-                "1..8, blank/white-space/comment lines and trailing comments at every line boundary, tabs/spaces/mixed, token "
-                "spacing spread over the trees); non-trivial = at least two renderings compared")
+    seed = chk.seed % 9973
+    workers = vlib.NCPU
+    d = spec_dir(seed)
+    # the design-level statement, decided by TLC itself (invariants), on the part of the vocabulary where it holds
+    r = vlib.tlc("Layout", "LayoutModel", workers=workers, timeout=600, xmx="8g", cwd=d, coverage=(tier == "thorough"))
+    chk.add_tlc("LayoutModel", r)
+    if r.violated:
+        chk.violation("the model (Layout.tla over the transcription of scan.c/linear.c) violates %s" % r.violated,
+                      r.trace_text, key={"model": "Layout", "cfg": "LayoutModel", "inv": r.violated})
+    one_part(chk, build, d, "LayoutQuick", "quick", workers, 900, stats)
+    dp = spec_dir(seed, progs=layout_progs.PROGS)
+    names = {n: n for n, _ in layout_progs.PROGS}
+    if tier != "thorough":
+        cfgp = open(os.path.join(dp, "LayoutProgs.cfg")).read().replace('StyleSet = "random"', 'StyleSet = "latin"')
+        open(os.path.join(dp, "LayoutProgs.cfg"), "w").write(cfgp)
+        one_part(chk, build, dp, "LayoutProgs", "programs", workers, 600, stats, names)
+    else:
+        one_part(chk, build, d, "LayoutThorough1", "thorough1", workers, 1500, stats)
+        one_part(chk, build, d, "LayoutThorough2", "thorough2", workers, 900, stats)
+        one_part(chk, build, d, "LayoutFull", "full", workers, 1500, stats)
+        for k in range(3):      # 20 programs x 20 styles drawn by the seed, three draws
+            cfgp = open(os.path.join(vlib.SPEC, "LayoutProgs.cfg")).read().replace("Seed = 0", "Seed = %d" % (seed + 101 * k))
+            open(os.path.join(dp, "LayoutProgs.cfg"), "w").write(cfgp)
+            one_part(chk, build, dp, "LayoutProgs", "programs%d" % k, workers, 900, stats, names)
+    chk.rule = ("case = one abstract program (block tree) whose renderings are compared: quick = all trees with <= 3 statements, "
+                "nesting <= 3, over 13 statement shapes + 12 larger trees, 8 styles each (each of braced/piled/mixed1/mixed2 twice, "
+                "each continuation none/stair/hang/esc twice; indent width 1..8, blank/white-space/comment lines and trailing "
+                "comments at every line boundary, tabs/spaces/mixed, token spacing spread over the trees by the seed) and 20 real "
+                "programs x 8 styles; thorough adds all trees <= 3 statements over 18 shapes x 16 styles, all trees <= 4 statements "
+                "over 8 shapes x 8 styles, trees <= 2 statements x the full 1792-style cross product, 20 programs x 20 seeded "
+                "styles x 3 draws; non-trivial = at least two renderings compared")
     chk.exhaustive = True
-    chk.assumptions.append("the decision that two texts are layouts of one program is the spec's (Render in Layout.tla "
-                           "uses only the layout rules of the User Guide); the parser is observed through -Fap, not modelled")
+    chk.assumptions.append("the decision that two texts are layouts of one program is the spec's (Render in Layout.tla uses only "
+                           "the layout rules of the User Guide); the parser (axl.z) is observed through -Fap, not modelled")
+    chk.assumptions.append("`++` descriptions, `@` labels, #if/#include inside the programs, bytes >= 0x80 and interactive "
+                           "(-Gloop) piling are outside the rendered layouts")
     chk.extra["c14"] = stats
 
 
